@@ -122,6 +122,7 @@ class Evaluator:
                  consts: Optional[Dict[str, Any]] = None, defs: Optional[Dict[str, ast.AST]] = None,
                  hook: Optional[Callable] = None):
         self.hook = hook  # hook(node, evaluator) -> value | NotImplemented ; consulted before interpretation
+        self.yields: List[Any] = []
         self.defs = dict(defs or {})  # single-assignment locals: name -> defining expression
         self._depth = 0
         self.bound: Dict[str, Any] = dict(env or {})  # source text -> value
@@ -306,6 +307,42 @@ class Evaluator:
 
         return fn
 
+    def _closure(self, fn):
+        """A nested `def`: callable over domain values; a generator function returns the list of yielded values."""
+        a = fn.args
+        if a.vararg or a.kwarg or a.kwonlyargs or a.posonlyargs:
+            raise Unfoldable("nested def with non-positional parameters")
+        names = [x.arg for x in a.args]
+        defaults = [None] * (len(names) - len(a.defaults)) + list(a.defaults)
+        outer = self
+        is_gen = any(isinstance(n, (ast.Yield, ast.YieldFrom)) for st in fn.body for n in ast.walk(st))
+
+        def call(*vals, **kw):
+            saved, saved_y = dict(outer.locals), outer.yields
+            outer.yields = []
+            try:
+                for i, nme in enumerate(names):
+                    if i < len(vals):
+                        outer.locals[nme] = vals[i]
+                    elif nme in kw:
+                        outer.locals[nme] = kw[nme]
+                    elif defaults[i] is not None:
+                        outer.locals[nme] = outer.ev(defaults[i])
+                    else:
+                        raise Raised("TypeError")
+                try:
+                    outer._block([s_ for s_ in fn.body if not (isinstance(s_, ast.Expr) and isinstance(s_.value, ast.Constant))])
+                    ret = None
+                except _Return as r:
+                    ret = r.value
+                return list(outer.yields) if is_gen else ret
+            finally:
+                # closures may update enclosing containers in place, but local rebinding stays local
+                outer.locals = saved
+                outer.yields = saved_y
+
+        return call
+
     def _comp(self, gens, body):
         def rec(i):
             if i == len(gens):
@@ -458,6 +495,26 @@ class Evaluator:
                     self.locals.pop(t.id, None)
                 else:
                     raise Unfoldable("delete target")
+        elif isinstance(st, (ast.FunctionDef,)):
+            self.locals[st.name] = self._closure(st)
+        elif isinstance(st, ast.While):
+            n = 0
+            while self.ev(st.test):
+                n += 1
+                if n > 100000:
+                    raise Unfoldable("while loop does not terminate on the sample domain")
+                try:
+                    self._block(st.body)
+                except _Continue:
+                    continue
+                except _Break:
+                    break
+        elif isinstance(st, ast.With):
+            for it in st.items:
+                v = self.ev(it.context_expr)
+                if it.optional_vars is not None:
+                    self._assign(it.optional_vars, v)
+            self._block(st.body)
         elif isinstance(st, ast.Return):
             raise _Return(self.ev(st.value) if st.value is not None else None)
         elif isinstance(st, ast.Raise):
@@ -475,6 +532,10 @@ class Evaluator:
             raise _Break()
         elif isinstance(st, ast.Pass):
             pass
+        elif isinstance(st, ast.Expr) and isinstance(st.value, ast.Yield):
+            self.yields.append(self.ev(st.value.value) if st.value.value is not None else None)
+        elif isinstance(st, ast.Expr) and isinstance(st.value, ast.YieldFrom):
+            self.yields.extend(list(self.ev(st.value.value)))
         elif isinstance(st, ast.Expr):
             if isinstance(st.value, ast.Constant):
                 return
